@@ -102,7 +102,21 @@ def make_case(ctx, rng):
                 r["bam"] = f
     if nsamples > 1 and rng.random() < 0.4:
         opts["samples"] = sorted(rng.sample(sc.samples, rng.randint(1, nsamples - 1)))
+    # read-group ids are numbers assigned per file: the id that belongs to one sample in the first file belongs to
+    # another sample in the second one (ids only mean something inside their own file)
+    opts["rg_clash"] = nsamples > 1 and rng.random() < (0.7 if opts["nbam"] == 2 else 0.3)
     return sc, reads, opts
+
+
+def rg_id_map(sc, opts, f):
+    if not opts.get("rg_clash"):
+        return None
+    n, k = len(sc.samples), max(1, opts.get("rg_per_sample", 1))
+    m = {}
+    for i, s in enumerate(sc.samples):
+        for j in range(k):
+            m[s if k <= 1 else f"{s}.{j}"] = str(((i + f) % n) * k + j + 1)
+    return m
 
 
 def run_case(ctx, sc, reads, opts, wd):
@@ -115,7 +129,7 @@ def run_case(ctx, sc, reads, opts, wd):
         if not sub and (f > 0 or nbam > 1):
             continue
         path = f"reads{f}.bam"
-        synth.write_bam(sc, sub, os.path.join(wd, path), rg_per_sample=opts.get("rg_per_sample", 1))
+        synth.write_bam(sc, sub, os.path.join(wd, path), rg_per_sample=opts.get("rg_per_sample", 1), rg_ids=rg_id_map(sc, opts, f))
         bams.append(path)
     trace = os.path.join(wd, "trace.jsonl")
     if os.path.exists(trace):
@@ -131,7 +145,7 @@ def run_case(ctx, sc, reads, opts, wd):
     for s in opts["samples"] or []:
         args += ["--sample", s]
     if not bams:
-        synth.write_bam(sc, [], os.path.join(wd, "reads0.bam"), rg_per_sample=opts.get("rg_per_sample", 1))
+        synth.write_bam(sc, [], os.path.join(wd, "reads0.bam"), rg_per_sample=opts.get("rg_per_sample", 1), rg_ids=rg_id_map(sc, opts, 0))
         bams = ["reads0.bam"]
     args += ["in.vcf"] + bams
     rc, out, err = run_cli(ctx, args, cwd=wd, env_extra={"WHATSHAP_VERIF_TRACE": trace})
@@ -348,6 +362,10 @@ def do_runs(ctx, specs):
         ctx.tally("runs")
         ctx.tally("tag." + opts["tag"])
         ctx.tally("bam_files", opts.get("nbam", 1))
+        if opts.get("rg_clash"):
+            ctx.tally("runs_with_numeric_read_group_ids")
+            if opts.get("nbam", 1) == 2:
+                ctx.tally("runs_with_read_group_id_meaning_another_sample_in_the_other_file")
         ctx.tally("read_groups_per_sample", opts.get("rg_per_sample", 1))
         ctx.tally("runs_with_mapq0_option", 1 if opts.get("mapq0") else 0)
         ctx.tally("runs_with_ignore_read_groups", 1 if opts.get("ignore_rg") else 0)
